@@ -6,6 +6,8 @@ reader.table, catalog.add_table and the splice in session.sql).  Scope hypothese
 
 Reading guide
   `Evaluates db q T`            statement `q` evaluates to `T` over database `db` (engine semantics, name-based WITH)
+  `evalLex db q`                value of `q` read the way Spark reads a WITH list (a CTE is visible to later
+                                definitions and to the main query only)
   `splice norm reg q`           what `session.sql` builds from the parsed statement `q` and the registry `reg`
   `withViews norm reg vals db`  the specification (“bind”): every registered view name denotes a table holding
                                 the registered frame's rows `vals`
@@ -29,23 +31,34 @@ theorem C13_gen_registry :
     spliceVisitsKinds = ["Table"] ∧ spliceRenamesKinds = ["Table"] ∧ spliceLookupKey = "name" ∧
     sqlWrapsResult = true := by decide
 
+/-- `_convert_leaf_to_cte` moves the whole leaf SELECT into the new CTE (only its WITH list is cleared, and that
+    list is kept in front of the new CTE); the new leaf is `SELECT <outer columns> FROM <new cte>` and nothing else -/
+theorem C13_gen_wrap :
+    cteClearedArgs = ["with"] ∧ wrapKeepsChain = true ∧ wrapLeafBuilders = ["from_", "select"] ∧
+    wrapSelectsOuterColumns = true := by decide
+
 /-! ### the splice -/
 
 /-- **C13_splice.**  For every database, registry and parsed statement that meet the named scope hypotheses,
-    the statement `session.sql` builds evaluates (over the plain database) to exactly what the user's
-    statement evaluates to over the database in which each view name denotes the registered frame's rows. -/
+    the statement `session.sql` builds evaluates (over the plain database, WITH list bound by name as the
+    engine does) to exactly what the user's statement means when it is read the way Spark reads it (`evalLex`:
+    a CTE is visible to later definitions and to the main query only) over the database in which each view
+    name denotes the registered frame's rows.  In particular a CTE named like a view hides the view exactly
+    where it is in scope: a reference inside its own or an earlier definition still reads the view. -/
 theorem C13_splice (norm : Name → Name) (reg : Registry) (q : Query) (db : Db) (vals : Name → Option Table)
     (H_noUserCteShadowsView : noShadow genCfg norm reg q = true)
     (H_noCteNameClash : noClash genCfg norm reg q = true)
+    (H_noCteCapturesViewTable : noCapture genCfg norm reg q = true)
     (H_closedViews : viewsClosed genCfg norm reg q = true)
     (H_reregisterKeepsColumns : schemaFresh genCfg norm reg q = true)
     (H_uniqueOutputNames : ViewsWF genCfg norm reg q db)
     (H_starSourcesOrdered : starsOrdered q = true)
+    (H_lexicalCtes : ctesNodup q = true ∧ lexicalRefs genCfg norm reg q = true)
     (hvals : ViewVals db reg vals) (T : Table) :
-    Evaluates db (splice norm reg q) T ↔ Evaluates (withViews norm reg vals db) q T :=
+    Evaluates db (splice norm reg q) T ↔ evalLex (withViews norm reg vals db) q = some T :=
   splice_correct genCfg norm reg q C13_gen_splice.1 C13_gen_splice.2.1 C13_gen_splice.2.2
-    H_noUserCteShadowsView H_noCteNameClash H_closedViews H_reregisterKeepsColumns H_starSourcesOrdered
-    db vals hvals H_uniqueOutputNames T
+    H_noUserCteShadowsView H_noCteNameClash H_closedViews H_noCteCapturesViewTable H_reregisterKeepsColumns
+    H_starSourcesOrdered H_lexicalCtes.1 H_lexicalCtes.2 db vals hvals H_uniqueOutputNames T
 
 /-- what the execution of the frame returns (after the duplicate-name check of the hash renaming) is a value
     of the statement -/
@@ -54,6 +67,26 @@ theorem C13_exec_sound (db : Db) (fr : Frame) (T : Table) (h : execFrame db fr =
   split at h
   · exact ⟨_, h⟩
   · cases h
+
+/-- **C13_lexical_nameBased.**  On every statement whose CTE names are pairwise distinct and whose definitions
+    refer only to CTEs defined before them (or to names that are no CTE of the statement), Spark's reading of
+    the WITH list and the engine's by-name reading agree — so for such statements “what the engine returns for
+    q” and “what Spark means by q” are the same thing, and `C13_splice` speaks about both. -/
+theorem C13_lexical_nameBased (db : Db) (q : Query) (hD : (names q.ctes).Nodup) (hO : orderedCtes q = true) (T : Table) :
+    Evaluates db q T ↔ evalLex db q = some T := lexical_nameBased db q hD hO T
+
+/-- **C13_chain_verbatim.**  Whatever else the statement mentions, the CTEs of a referenced view arrive in the
+    statement `session.sql` builds exactly as the registry holds them: no table reference inside them is
+    renamed (in particular a read of an engine table stays a read of that table when a temp view of the same
+    name is referenced by the same statement). -/
+theorem C13_chain_verbatim (norm : Name → Name) (reg : Registry) (q : Query)
+    (H_noCteNameClash : noClash genCfg norm reg q = true)
+    (H_noCteCapturesViewTable : noCapture genCfg norm reg q = true)
+    (H_closedViews : viewsClosed genCfg norm reg q = true)
+    (e : Entry) (he : e ∈ visited genCfg norm reg q) (n : Name) (b : Body) (hb : assoc e.frame.ctes n = some b) :
+    assoc (splice norm reg q).ctes n = some b :=
+  assoc_spliced_chain genCfg norm reg q C13_gen_splice.1 C13_gen_splice.2.2 H_noCteNameClash H_closedViews
+    H_noCteCapturesViewTable e he n b hb
 
 /-! ### session.table -/
 
@@ -75,7 +108,31 @@ theorem C13_table (nm : Namer) (norm : Name → Name) (reg : Registry) (name nam
     `df`'s column names are pairwise distinct) -/
 theorem C13_table_value (nm : Namer) (db : Db) (fr : Frame) (hf : FreshName (nm fr.ctes fr.leaf) fr)
     (H_uniqueOutputNames : ∀ T₀, Evaluates db fr.query T₀ → T₀.WF) (T : Table) :
-    Evaluates db (wrap nm fr).query T ↔ Evaluates db fr.query T := wrap_value_wf nm db fr hf H_uniqueOutputNames T
+    Evaluates db (wrap nm fr).query T ↔ Evaluates db fr.query T :=
+  wrap_value_wf C13_gen_wrap.1 C13_gen_wrap.2.1 nm db fr hf H_uniqueOutputNames T
+
+/-- **C13_register_last_step.**  Whatever the last DataFrame operator of the registered frame is — `where`,
+    `select`, `distinct` / `dropDuplicates`, `groupBy.agg`, `orderBy`, `limit` — the frame the registry holds has
+    exactly the value of that operator applied to the value of the frame before it: the leaf → CTE conversion
+    moves the whole leaf (all its clauses) into the CTE the view is later read through. -/
+theorem C13_register_last_step (nm : Namer) (db : Db) (fr : Frame) (op : UnOp)
+    (hf : FreshName (nm fr.ctes (.un op fr.leaf)) (transform fr op))
+    (H_uniqueOutputNames : ∀ T₀, Evaluates db (transform fr op).query T₀ → T₀.WF) (T : Table) :
+    Evaluates db (storeFrame nm (transform fr op)).query T ↔ ∃ T₀, Evaluates db fr.query T₀ ∧ op.apply T₀ = some T := by
+  have hs : viewStores = .wrappedCopy := C13_gen_registry.1
+  simp only [storeFrame, hs]
+  rw [wrap_value_wf C13_gen_wrap.1 C13_gen_wrap.2.1 nm db (transform fr op) hf H_uniqueOutputNames T]
+  exact transform_value db fr op T
+
+/-- … and what a reference to the view is replaced by — the frame's last CTE — has that value too (the
+    registered frame is wrapped: its leaf only reads the last CTE back by name) -/
+theorem C13_register_last_cte (nm : Namer) (fr : Frame) :
+    (storeFrame nm fr).Wrapped ∧ (storeFrame nm fr).ctes.getLast? = some (nm fr.ctes fr.leaf, fr.leaf) := by
+  have hs : viewStores = .wrappedCopy := C13_gen_registry.1
+  simp only [storeFrame, hs]
+  refine ⟨wrap_wrapped nm fr, ?_⟩
+  rw [wrap_eq C13_gen_wrap.1 C13_gen_wrap.2.1]
+  simp
 
 /-! ### histories -/
 
@@ -123,17 +180,18 @@ theorem C13_sqlFrame_value (nm : Namer) (norm : Name → Name) (reg : Registry) 
     (vals : Name → Option Table)
     (hS : noShadow genCfg norm reg q = true) (hC : noClash genCfg norm reg q = true)
     (hV : viewsClosed genCfg norm reg q = true) (hF : schemaFresh genCfg norm reg q = true)
-    (hW : ViewsWF genCfg norm reg q db) (hU : ∀ T₀, Evaluates (withViews norm reg vals db) q T₀ → T₀.WF)
-    (hO : starsOrdered q = true)
+    (hN : noCapture genCfg norm reg q = true)
+    (hW : ViewsWF genCfg norm reg q db) (hU : ∀ T₀, evalLex (withViews norm reg vals db) q = some T₀ → T₀.WF)
+    (hO : starsOrdered q = true) (hL : ctesNodup q = true ∧ lexicalRefs genCfg norm reg q = true)
     (hvals : ViewVals db reg vals)
     (hfresh : FreshName (nm (splice norm reg q).ctes (splice norm reg q).final) ⟨(splice norm reg q).ctes, (splice norm reg q).final⟩)
     (T : Table) :
-    Evaluates db (sqlFrame nm norm reg q).query T ↔ Evaluates (withViews norm reg vals db) q T := by
+    Evaluates db (sqlFrame nm norm reg q).query T ↔ evalLex (withViews norm reg vals db) q = some T := by
   have hw : sqlWrapsResult = true := C13_gen_registry.2.2.2.2.2.2.2.2
   unfold sqlFrame
   simp only [hw, if_true]
-  have hsp := C13_splice norm reg q db vals hS hC hV hF hW hO hvals
-  rw [wrap_value_wf nm db _ hfresh (fun T₀ h => hU T₀ ((hsp T₀).1 h)) T]
+  have hsp := C13_splice norm reg q db vals hS hC hN hV hF hW hO hL hvals
+  rw [wrap_value_wf C13_gen_wrap.1 C13_gen_wrap.2.1 nm db _ hfresh (fun T₀ h => hU T₀ ((hsp T₀).1 h)) T]
   exact hsp T
 
 /-- **C13_result_is_df.**  The frame `session.sql(q)` returns is an ordinary wrapped frame (its leaf is the
@@ -143,22 +201,23 @@ theorem C13_result_is_df (nm : Namer) (norm : Name → Name) (reg : Registry) (q
     (vals : Name → Option Table)
     (hS : noShadow genCfg norm reg q = true) (hC : noClash genCfg norm reg q = true)
     (hV : viewsClosed genCfg norm reg q = true) (hF : schemaFresh genCfg norm reg q = true)
-    (hW : ViewsWF genCfg norm reg q db) (hU : ∀ T₀, Evaluates (withViews norm reg vals db) q T₀ → T₀.WF)
-    (hO : starsOrdered q = true)
+    (hN : noCapture genCfg norm reg q = true)
+    (hW : ViewsWF genCfg norm reg q db) (hU : ∀ T₀, evalLex (withViews norm reg vals db) q = some T₀ → T₀.WF)
+    (hO : starsOrdered q = true) (hL : ctesNodup q = true ∧ lexicalRefs genCfg norm reg q = true)
     (hvals : ViewVals db reg vals)
     (hfresh : FreshName (nm (splice norm reg q).ctes (splice norm reg q).final) ⟨(splice norm reg q).ctes, (splice norm reg q).final⟩)
     (op : UnOp) (T' : Table) :
     (sqlFrame nm norm reg q).Wrapped ∧
     (Evaluates db (transform (sqlFrame nm norm reg q) op).query T' ↔
-      ∃ T, Evaluates (withViews norm reg vals db) q T ∧ op.apply T = some T') := by
+      ∃ T, evalLex (withViews norm reg vals db) q = some T ∧ op.apply T = some T') := by
   have hw : sqlWrapsResult = true := C13_gen_registry.2.2.2.2.2.2.2.2
   refine ⟨by unfold sqlFrame; simp only [hw, if_true]; exact wrap_wrapped nm _, ?_⟩
   rw [transform_value]
   constructor
   · rintro ⟨T, h1, h2⟩
-    exact ⟨T, (C13_sqlFrame_value nm norm reg q db vals hS hC hV hF hW hU hO hvals hfresh T).1 h1, h2⟩
+    exact ⟨T, (C13_sqlFrame_value nm norm reg q db vals hS hC hV hF hN hW hU hO hL hvals hfresh T).1 h1, h2⟩
   · rintro ⟨T, h1, h2⟩
-    exact ⟨T, (C13_sqlFrame_value nm norm reg q db vals hS hC hV hF hW hU hO hvals hfresh T).2 h1, h2⟩
+    exact ⟨T, (C13_sqlFrame_value nm norm reg q db vals hS hC hV hF hN hW hU hO hL hvals hfresh T).2 h1, h2⟩
 
 /-- **C13_partial.**  For every history `evs₁ ++ [sql q] ++ evs₂` from a state whose registry holds wrapped
     frames with exact catalog columns: if the statement meets the scope hypotheses at the moment it is
@@ -171,25 +230,26 @@ theorem C13_partial (nm : Namer) (norm : Name → Name) (db : Db) (σ : St) (evs
     (H_reregisterKeepsColumns : viewSchemaKeptOnReregister = false ∨ KeepsColumns nm norm db σ evs₁)
     (H_noUserCteShadowsView : noShadow genCfg norm (run nm norm db σ evs₁).reg q = true)
     (H_noCteNameClash : noClash genCfg norm (run nm norm db σ evs₁).reg q = true)
+    (H_noCteCapturesViewTable : noCapture genCfg norm (run nm norm db σ evs₁).reg q = true)
     (H_closedViews : viewsClosed genCfg norm (run nm norm db σ evs₁).reg q = true)
     (H_uniqueOutputNames : ViewsWF genCfg norm (run nm norm db σ evs₁).reg q db ∧
-      ∀ T₀, Evaluates (withViews norm (run nm norm db σ evs₁).reg vals db) q T₀ → T₀.WF)
+      ∀ T₀, evalLex (withViews norm (run nm norm db σ evs₁).reg vals db) q = some T₀ → T₀.WF)
     (H_starSourcesOrdered : starsOrdered q = true)
+    (H_lexicalCtes : ctesNodup q = true ∧ lexicalRefs genCfg norm (run nm norm db σ evs₁).reg q = true)
     (hvals : ViewVals db (run nm norm db σ evs₁).reg vals)
     (hfresh : let s := splice norm (run nm norm db σ evs₁).reg q; FreshName (nm s.ctes s.final) ⟨s.ctes, s.final⟩) :
     let σ₁ := run nm norm db σ evs₁
     let fr := sqlFrame nm norm σ₁.reg q
     (run nm norm db σ (evs₁ ++ .sql q :: evs₂)).frames[σ₁.frames.length]? = some fr ∧
-    ∀ T, Evaluates db fr.query T ↔ Evaluates (withViews norm σ₁.reg vals db) q T := by
+    ∀ T, Evaluates db fr.query T ↔ evalLex (withViews norm σ₁.reg vals db) q = some T := by
   intro σ₁ fr
   have hfr := (C13_history_invariants nm norm db σ evs₁ hw hf H_reregisterKeepsColumns).2
   have hF : schemaFresh genCfg norm σ₁.reg q = true := by
     unfold schemaFresh
     rw [List.all_eq_true]
     intro e he
-    unfold visited at he
-    obtain ⟨n, _, hv⟩ := List.mem_filterMap.1 he
-    simp [hfr _ e (viewOf_some _ _ _ _ _ _ hv)]
+    obtain ⟨k, hk⟩ := visited_registered genCfg norm σ₁.reg q e he
+    simp [hfr k e hk]
   constructor
   · rw [run_append]
     simp only [run]
@@ -197,7 +257,7 @@ theorem C13_partial (nm : Namer) (norm : Name → Name) (db : Db) (σ : St) (evs
     simp [step, σ₁, fr, sqlFrameChecked_eq nm norm db _ q hF]
   · intro T
     exact C13_sqlFrame_value nm norm σ₁.reg q db vals H_noUserCteShadowsView H_noCteNameClash H_closedViews hF
-      H_uniqueOutputNames.1 H_uniqueOutputNames.2 H_starSourcesOrdered hvals hfresh T
+      H_noCteCapturesViewTable H_uniqueOutputNames.1 H_uniqueOutputNames.2 H_starSourcesOrdered H_lexicalCtes hvals hfresh T
 
 /-! ### non-vacuity: a concrete instance meets every hypothesis -/
 
@@ -234,11 +294,69 @@ end C13Ex
 open C13Ex in
 /-- the hypotheses of `C13_splice` hold for the example, and both sides evaluate to the one joined row -/
 example : noShadow genCfg norm σ.reg q = true ∧ noClash genCfg norm σ.reg q = true ∧
-    viewsClosed genCfg norm σ.reg q = true ∧ schemaFresh genCfg norm σ.reg q = true ∧
-    uniqueNames db norm σ.reg q = true ∧ starsOrdered q = true ∧
+    viewsClosed genCfg norm σ.reg q = true ∧ noCapture genCfg norm σ.reg q = true ∧
+    schemaFresh genCfg norm σ.reg q = true ∧
+    uniqueNames db norm σ.reg q = true ∧ starsOrdered q = true ∧ ctesNodup q = true ∧ lexicalRefs genCfg norm σ.reg q = true ∧
     evalQuery db (splice norm σ.reg q) = some ⟨["k", "w"], [[.int 1, .int 10]]⟩ ∧
-    evalQuery (withViews norm σ.reg (canonVals db σ.reg) db) q = some ⟨["k", "w"], [[.int 1, .int 10]]⟩ := by
+    evalLex (withViews norm σ.reg (canonVals db σ.reg) db) q = some ⟨["k", "w"], [[.int 1, .int 10]]⟩ := by
   decide +kernel
+
+namespace C13Ex
+
+/-- WITH c AS (SELECT x.k AS k FROM va AS x WHERE x.k > 1), va AS (SELECT c.k AS k FROM c AS c)
+    SELECT va.k AS k FROM va AS va — the first definition reads the *view* `va`, the main query the CTE -/
+def qLex : Query :=
+  { ctes := [("c", .un (.project [("k", .col "x.k")]) (.un (.filter (.bin .gt (.col "x.k") (.lit (.int 1)))) (.un (.qual "x") (.scan "va")))),
+             ("va", .un (.project [("k", .col "c.k")]) (.un (.qual "c") (.scan "c")))],
+    final := .un (.project [("k", .col "va.k")]) (.un (.qual "va") (.scan "va")) }
+
+/-- WITH va AS (SELECT x.k AS k FROM va AS x WHERE x.k > 1) SELECT va.k AS k FROM va AS va -/
+def qSelf : Query :=
+  { ctes := [("va", .un (.project [("k", .col "x.k")]) (.un (.filter (.bin .gt (.col "x.k") (.lit (.int 1)))) (.un (.qual "x") (.scan "va"))))],
+    final := .un (.project [("k", .col "va.k")]) (.un (.qual "va") (.scan "va")) }
+
+/-- `tB.orderBy(w desc).limit(1)` as the last steps of a frame -/
+def topOne : Frame := transform (transform ⟨[], .lit tB⟩ (.sort [⟨"w", true, false⟩])) (.limit 1)
+
+end C13Ex
+
+open C13Ex in
+/-- the hypotheses of `C13_splice` hold for statements whose CTE is named like the view it reads (in its own
+    definition / in an earlier definition); both sides evaluate to the rows with k > 1 of the view — while the
+    by-name reading of the user's statement is a reference cycle -/
+example : (∀ q ∈ [qLex, qSelf],
+      noShadow genCfg norm σ.reg q = true ∧ noClash genCfg norm σ.reg q = true ∧
+      viewsClosed genCfg norm σ.reg q = true ∧ noCapture genCfg norm σ.reg q = true ∧
+      schemaFresh genCfg norm σ.reg q = true ∧ uniqueNames db norm σ.reg q = true ∧ starsOrdered q = true ∧
+      ctesNodup q = true ∧ lexicalRefs genCfg norm σ.reg q = true ∧
+      evalQuery db (splice norm σ.reg q) = some ⟨["k"], [[.int 2], [.int 3]]⟩ ∧
+      evalLex (withViews norm σ.reg (canonVals db σ.reg) db) q = some ⟨["k"], [[.int 2], [.int 3]]⟩ ∧
+      evalQuery (withViews norm σ.reg (canonVals db σ.reg) db) q = none) := by
+  decide +kernel
+
+open C13Ex in
+/-- C13_lexical_nameBased instance: the example statement `q` (its CTE reads a view, the main query the CTE) is ordered -/
+example : (names q.ctes).Nodup ∧ orderedCtes q = true := by decide +kernel
+
+open C13Ex in
+/-- C13_register_last_step instance: a frame ending in orderBy + limit, registered: the stored frame is wrapped,
+    its last CTE holds the whole leaf (ORDER BY and LIMIT included), and it evaluates to the top row -/
+example : (storeFrame nm topOne).ctes.getLast? = some (nm topOne.ctes topOne.leaf, topOne.leaf) ∧
+    evalQuery db (storeFrame nm topOne).query = some ⟨["k", "w"], [[.int 5, .int 50]]⟩ := by
+  decide +kernel
+
+open C13Ex in
+/-- … and the hypotheses of C13_register_last_step hold for it: the new CTE name is fresh for the frame being
+    wrapped (`transform (… sort) (limit 1)`), whose only value has pairwise distinct column names -/
+example : FreshName (nm (transform ⟨[], .lit tB⟩ (.sort [⟨"w", true, false⟩])).ctes
+      (.un (.limit 1) (transform ⟨[], .lit tB⟩ (.sort [⟨"w", true, false⟩])).leaf)) topOne ∧
+    (evalQuery db topOne.query).map (fun T => decide T.WF) = some true := by
+  unfold FreshName
+  decide +kernel
+
+open C13Ex in
+/-- C13_chain_verbatim instance: the example statement references two views, whose chains are non-empty -/
+example : (visited genCfg norm σ.reg q).map (fun e => e.frame.ctes.length) = [1, 1] := by decide +kernel
 
 open C13Ex in
 /-- `ViewVals` is satisfiable: the canonical values of the example registry -/
@@ -302,7 +420,7 @@ open C13Ex C13Cex in
 theorem C13_cex_userCteShadowsView : spliceSkipsCteBound = false →
     (noShadow genCfg norm regA qShadow = false ∧
     evalQuery db (splice norm regA qShadow) = some ⟨["k"], [[.int 1], [.int 2], [.int 3]]⟩ ∧
-    evalQuery (withViews norm regA (canonVals db regA) db) qShadow = some ⟨["k"], [[.int 1]]⟩) := by
+    evalLex (withViews norm regA (canonVals db regA) db) qShadow = some ⟨["k"], [[.int 1]]⟩) := by
   decide +kernel
 
 open C13Ex C13Cex in
@@ -311,7 +429,7 @@ open C13Ex C13Cex in
 theorem C13_cex_cteNameClash :
     noClash genCfg norm regD qClash = false ∧
     evalQuery db (splice norm regD qClash) = some ⟨["a", "b"], [[.int 99, .int 99]]⟩ ∧
-    evalQuery (withViews norm regD (canonVals db regD) db) qClash = some ⟨["a", "b"], [[.int 2, .int 99], [.int 3, .int 99]]⟩ := by
+    evalLex (withViews norm regD (canonVals db regD) db) qClash = some ⟨["a", "b"], [[.int 2, .int 99], [.int 3, .int 99]]⟩ := by
   decide +kernel
 
 open C13Ex C13Cex in
@@ -320,7 +438,7 @@ open C13Ex C13Cex in
     (Repaired in the source by “do not give two CTEs the same hashed name”: the premise is then false.) -/
 theorem C13_cex_distinctCteBodies : rehashKeepsUniqueNames = false →
     (execFrame db (sqlFrame nm norm regA qDup) = none ∧
-    evalQuery (withViews norm regA (canonVals db regA) db) qDup = some ⟨["a"], [[.int 1], [.int 2], [.int 3]]⟩) := by
+    evalLex (withViews norm regA (canonVals db regA) db) qDup = some ⟨["a"], [[.int 1], [.int 2], [.int 3]]⟩) := by
   decide +kernel
 
 open C13Ex C13Cex in
@@ -329,7 +447,7 @@ open C13Ex C13Cex in
 theorem C13_cex_reregisterKeepsColumns : viewSchemaKeptOnReregister = true →
     (schemaFresh genCfg norm regStale qStar = false ∧
     evalQuery db (splice norm regStale qStar) = none ∧
-    evalQuery (withViews norm regStale (canonVals db regStale) db) qStar = some tB) := by
+    evalLex (withViews norm regStale (canonVals db regStale) db) qStar = some tB) := by
   decide +kernel
 
 open C13Ex C13Cex in
@@ -341,7 +459,7 @@ theorem C13_cex_uniqueOutputNames :
       [[.int 1, .str "x", .int 1, .int 10], [.int 1, .str "x", .int 1, .int 50],
        [.int 2, .str "y", .int 2, .int 10], [.int 2, .str "y", .int 2, .int 50],
        [.int 3, .null, .int 3, .int 10], [.int 3, .null, .int 3, .int 50]]⟩ ∧
-    evalQuery (withViews norm regAB (canonVals db regAB) db) qCross = some ⟨["k", "s", "k", "w"],
+    evalLex (withViews norm regAB (canonVals db regAB) db) qCross = some ⟨["k", "s", "k", "w"],
       [[.int 1, .str "x", .int 1, .int 10], [.int 1, .str "x", .int 5, .int 50],
        [.int 2, .str "y", .int 1, .int 10], [.int 2, .str "y", .int 5, .int 50],
        [.int 3, .null, .int 1, .int 10], [.int 3, .null, .int 5, .int 50]]⟩ := by
@@ -353,7 +471,32 @@ open C13Ex C13Cex in
 theorem C13_cex_starSourcesOrdered :
     starsOrdered qSubFirst = false ∧
     (evalQuery db (splice norm regAB qSubFirst)).map (·.cols) = some ["k", "w", "j"] ∧
-    (evalQuery (withViews norm regAB (canonVals db regAB) db) qSubFirst).map (·.cols) = some ["j", "k", "w"] := by
+    (evalLex (withViews norm regAB (canonVals db regAB) db) qSubFirst).map (·.cols) = some ["j", "k", "w"] := by
+  decide +kernel
+
+namespace C13Cex
+open C13Ex
+
+def tT : Table := ⟨["k", "s"], [[.int 1, .str "a"], [.int 2, .str "b"], [.int 3, .str "c"]]⟩
+/-- a database with one engine table `tb` -/
+def dbT : Db := fun n => if n = "tb" then some tT else none
+/-- `session.table("tb").where(k > 1).createOrReplaceTempView("va")` -/
+def regT : Registry :=
+  (run nm norm dbT ⟨[], []⟩ [.table "tb", .transform 0 (.filter (.bin .gt (.col "k") (.lit (.int 1)))), .register "va" 1]).reg
+/-- WITH tb AS (SELECT 10 AS k, 'z' AS s) SELECT va.k AS k, va.s AS s FROM va -/
+def qCapture : Query :=
+  { ctes := [("tb", .lit ⟨["k", "s"], [[.int 10, .str "z"]]⟩)],
+    final := .un (.project [("k", .col "va.k"), ("s", .col "va.s")]) (.un (.qual "va") (.scan "va")) }
+
+end C13Cex
+
+open C13Ex C13Cex in
+/-- **H_noCteCapturesViewTable is needed**: the view `va` reads the engine table `tb`; the statement has its own
+    CTE `tb`; the view's CTEs are added to the statement's WITH list unchanged, so the view reads the CTE. -/
+theorem C13_cex_cteCapturesViewTable :
+    noCapture genCfg norm regT qCapture = false ∧
+    evalQuery dbT (splice norm regT qCapture) = some ⟨["k", "s"], [[.int 10, .str "z"]]⟩ ∧
+    evalLex (withViews norm regT (canonVals dbT regT) dbT) qCapture = some ⟨["k", "s"], [[.int 2, .str "b"], [.int 3, .str "c"]]⟩ := by
   decide +kernel
 
 /-! ### the full statement -/
@@ -361,13 +504,14 @@ theorem C13_cex_starSourcesOrdered :
 /-- C13 at full strength: in every history, every `session.sql` statement over closed, wrapped views — with no
     restriction on CTE names, repeated CTE texts or re-registered column lists — executes to exactly the
     value of the statement over the views as registered at that moment, and `session.table` returns the
-    latest registration.  `C13_partial` proves it under H_noUserCteShadowsView, H_noCteNameClash,
-    H_reregisterKeepsColumns, H_uniqueOutputNames, H_starSourcesOrdered (and H_distinctCteBodies for the execution); the `C13_cex_*` theorems show
+    latest registration.  `C13_partial` proves it under H_noUserCteShadowsView, H_noCteNameClash, H_noCteCapturesViewTable,
+    H_reregisterKeepsColumns, H_uniqueOutputNames, H_starSourcesOrdered (and H_distinctCteBodies for the execution;
+    H_lexicalCtes excludes statements Spark itself rejects or reads differently from every by-name engine); the `C13_cex_*` theorems show
     that each of them is needed for the code as it is. -/
 def C13_full_statement : Prop :=
   ∀ (nm : Namer) (norm : Name → Name) (db : Db) (evs : List Ev) (q : Query) (vals : Name → Option Table),
     let σ₁ := run nm norm db ⟨[], []⟩ evs
     viewsClosed genCfg norm σ₁.reg q = true → ViewVals db σ₁.reg vals →
-    ∀ T, Evaluates (withViews norm σ₁.reg vals db) q T → execFrame db (sqlFrameChecked nm norm db σ₁.reg q) = some T
+    ∀ T, evalLex (withViews norm σ₁.reg vals db) q = some T → execFrame db (sqlFrameChecked nm norm db σ₁.reg q) = some T
 
 end Sqlframe
